@@ -7,6 +7,7 @@ import (
 	"encoding/hex"
 	"fmt"
 	"io"
+	"math"
 	"path/filepath"
 	"slices"
 	"strings"
@@ -114,6 +115,9 @@ func NewEncryptedISO(f afero.File, data1 []byte, clearRegions bool) (*EncryptedI
 		if unencryptedRegion.End <= unencryptedRegion.Start {
 			return nil, fmt.Errorf("region %d: end (%#x) less than start (%#x)",
 				i, unencryptedRegion.End, unencryptedRegion.Start)
+		}
+		if unencryptedRegion.End > math.MaxInt32 {
+			return nil, fmt.Errorf("region %d: end (%#x) is out of range", i, unencryptedRegion.End)
 		}
 		if unencryptedRegion.Start < prevRegionEnd {
 			return nil, fmt.Errorf("region %d: start (%#x) less than previous region end (%#x)",
